@@ -976,6 +976,19 @@ class CallsMixin:
             if feasible(s_out.pc):
                 out.append((s_out, dflt))
             return out
+        if name == "setdefault" and len(pos) == 2:
+            key, dflt = pos
+            has = st.dict_has(recv, key)
+            out = []
+            s_in = st.copy(); s_in.assume_branch(has)
+            if feasible(s_in.pc):
+                out.append((s_in, s_in.dict_get(recv, key, check=False)))
+            s_out = st.copy(); s_out.assume_branch(z3.Not(has))
+            if feasible(s_out.pc):
+                dflt = self.retype_fresh_list(dflt, recv.ty[2], s_out)
+                s_out.dict_set(recv, key, dflt)
+                out.append((s_out, dflt))
+            return out
         raise Unsupported(f"dict.{name}")
 
     # ------------------------------------------------------------------ construction
